@@ -22,6 +22,21 @@ Oracles
      injected kind (TIMEOUT_ERROR / RECEIVE_ERROR / PROTOCOL_ERROR)
  (e) no command is attempted more often than the budget in a row
 
+NXP personalities (nfc/tag/tt2_nxp.py, simulators in vlib.simnxp): Mifare
+Ultralight, Ultralight C (3DES mutual authentication, AUTH0 / AUTH1, key
+pages), NTAG203, Ultralight EV1 MF0UL(H)11 / MF0UL(H)21, NTAG210 / 212 / 213 /
+215 / 216 and NTAG I2C 1k / 2k are fixtures of the legs enum, mixed,
+generated, mixed_generated (table NXP, strategy nxp_desc) and of the
+re-activation legs: every operation the class offers (NDEF read / write,
+is_present, format of a formatted and of a blank tag, dump, protect with lock
+bits / password / empty password / read protection / a short password,
+authenticate with the right / a wrong / the ex works / a short password,
+authenticate followed by NDEF read, NDEF write, dump on a protected tag,
+signature, raw read / write, session registers behind a SECTOR SELECT).  An
+operation whose fault-free run ends with a TagCommandError because the tag
+refuses a command (a page behind AUTH0) must end with the same error after an
+absorbed burst.
+
 History legs (felica_hist_enum, felica_hist): several operations on ONE FeliCa
 Lite / Lite-S tag object (authenticate with the right / a wrong key, NDEF
 read / re-read / write, read_with_mac, plain and MAC'd block writes, presence
@@ -54,20 +69,24 @@ not found, communication error inside sense(), tag out of the field from an
 event position counted over commands and polls - followed by FURTHER
 operations on the same tag object: oracle (a) on every one of them.
 """
+import collections
 import contextlib
 import functools
 import io
+import os
 
 from hypothesis import strategies as st
 
 import nfc.tag
 import nfc.tag.tt1
 import nfc.tag.tt2
+import nfc.tag.tt2_nxp
 import nfc.tag.tt3
 import nfc.tag.tt3_sony
 import nfc.tag.tt4
 
-from vlib import isodep_card, ref_felica, simfelica, simntag, tagdev, vsched
+from vlib import isodep_card, ref_felica, simfelica, simntag, simnxp, tagdev
+from vlib import vsched
 from vlib.engine import HarnessError, Leg, Violation, unexpected
 from props import tagcommon as tc
 
@@ -80,6 +99,24 @@ ASSUMPTIONS = [
     "FeliCa Lite-S MAC'd writes with 'response lost' are not idempotent (WCNT "
     "advanced): a TagCommandError is accepted there",
     "simulators as in C01 / C20",
+    "NXP personalities: simulators of vlib.simnxp (command sets, page "
+    "layouts and access conditions after the NXP data sheets as far as "
+    "nfc/tag/tt2_nxp.py depends on them; AUTH0 / AUTH1 / key / PWD changes "
+    "take effect with the next activation); the tag side of the Ultralight C "
+    "authentication reproduces the transcript recorded in "
+    "tests/test_tag_tt2_nxp.py",
+    "commands that cannot be repeated with the fault-free outcome are exempt "
+    "from oracle (b): the AFh step of the Ultralight C authentication when "
+    "the tag executed it and the response was lost (the tag has left the "
+    "authentication sequence and refuses the repetition, authenticate() "
+    "returns the documented False); a command the tag refuses with a NAK when "
+    "that response was lost (the tag is in HALT state, the repetition times "
+    "out); a command the tag refuses by silence (every attempt of the "
+    "fault-free run is a timeout already)",
+    "the AFh commands of two runs differ by the tag's fresh challenge: for "
+    "'no answered command is sent again' they are compared by command code",
+    "a password shorter than documented (Ultralight C < 16, NTAG21x < 6 "
+    "byte) is answered with ValueError as documented",
     "history legs (felica_hist*): the tag holds the key of the password used, "
     "protect() is not part of the histories (what a CK write does to a running "
     "session is an approximation in the simulator); the fault-free run of the "
@@ -178,6 +215,101 @@ OPS["t4t-b"] = ["ndef", "write", "present"]
 OPS["t4t-slow"] = ["ndef", "present"]
 
 PW = b"0123456789abcdef"
+PW2 = b"fedcba9876543210"
+
+# NXP personalities of nfc/tag/tt2_nxp.py (vlib.simnxp): fixture -> simulator
+# parameters.  "key": the tag holds PW (Ultralight C: the 16 byte 3DES key,
+# PWD_AUTH products: PWD = PW[0:4], PACK = PW[4:6]) instead of the ex works
+# secret; auth0 / prot: first protected page / read protection; cc3: byte 3 of
+# the capability container (88h / 08h = what protect(password) leaves);
+# ndef: message length | "blank" (capability container, empty data area).
+NXP = {
+    "ul": {"product": "UL"},
+    "ulc": {"product": "ULC"},
+    "ulc-prot": {"product": "ULC", "key": True, "auth0": 3, "prot": True,
+                 "cc3": 0x88},
+    "ulc-wprot": {"product": "ULC", "key": True, "auth0": 3, "prot": False,
+                  "cc3": 0x08},
+    "ntag203": {"product": "NTAG203"},
+    "ntag203-blank": {"product": "NTAG203", "ndef": "blank"},
+    "ev1-11": {"product": "MF0UL11"},
+    "ev1-h11": {"product": "MF0ULH11", "nak": "mute"},
+    "ev1-21": {"product": "MF0UL21"},
+    "ev1-h21": {"product": "MF0ULH21", "nak": "mute"},
+    "ntag210": {"product": "NTAG210"},
+    "ntag210-prot": {"product": "NTAG210", "key": True, "auth0": 3,
+                     "prot": True, "cc3": 0x88},
+    "ntag210-blank": {"product": "NTAG210", "ndef": "blank"},
+    "ntag212": {"product": "NTAG212"},
+    "ntag212-blank": {"product": "NTAG212", "ndef": "blank"},
+    "ntag213-blank": {"product": "NTAG213", "ndef": "blank"},
+    "ntag215": {"product": "NTAG215", "nak": "mute"},
+    "ntag215-blank": {"product": "NTAG215", "ndef": "blank"},
+    "ntag216": {"product": "NTAG216"},
+    "ntag216-blank": {"product": "NTAG216", "ndef": "blank"},
+    "i2c1k": {"product": "NT3H1101"},
+    "i2c2k": {"product": "NT3H1201"},
+}
+OPS.update({
+    "ul": ["ndef", "write", "present", "format", "format-wipe", "protect",
+           "protect-pw", "auth", "dump", "raw:read", "raw:write"],
+    "ulc": ["ndef", "write", "present", "format", "format-wipe", "protect",
+            "protect-pw", "protect-pw-read", "protect-empty", "protect-short",
+            "auth", "auth-empty", "auth-short", "dump", "raw:read",
+            "raw:write"],
+    "ulc-prot": ["ndef", "present", "auth", "auth-other", "auth-ndef",
+                 "auth-write", "auth-dump", "dump", "protect", "raw:read"],
+    "ulc-wprot": ["ndef", "auth-write", "raw:write"],
+    "ntag203": ["ndef", "write", "present", "format", "format-wipe",
+                "protect", "protect-pw", "auth", "dump", "raw:read",
+                "raw:write"],
+    "ntag203-blank": ["format", "protect"],
+    "ev1-11": ["ndef", "write", "present", "format", "protect", "protect-pw",
+               "protect-short", "auth", "auth-empty", "auth-short", "dump",
+               "signature"],
+    "ev1-h11": ["dump"],
+    "ev1-21": ["ndef", "protect", "protect-pw-read", "dump", "signature"],
+    "ev1-h21": ["dump"],
+    "ntag210": ["ndef", "write", "format", "protect", "protect-pw",
+                "protect-empty", "auth-empty", "dump", "signature"],
+    "ntag210-prot": ["ndef", "auth", "auth-other", "auth-ndef", "auth-write",
+                     "auth-dump", "dump", "protect"],
+    "ntag210-blank": ["format"],
+    "ntag212": ["ndef", "format", "protect", "protect-pw-read", "dump",
+                "signature"],
+    "ntag212-blank": ["format"],
+    "ntag213-blank": ["format"],
+    "ntag215": ["ndef", "protect", "protect-pw", "dump"],
+    "ntag215-blank": ["format"],
+    "ntag216": ["protect-pw", "dump"],
+    "ntag216-blank": ["format"],
+    "i2c1k": ["ndef", "write", "present", "format", "protect", "protect-pw",
+              "auth", "dump", "raw:session"],
+    "i2c2k": ["ndef", "write", "protect", "dump"],
+})
+OPS["ntag"] = OPS["ntag"] + ["signature", "auth-empty", "auth-short",
+                             "protect-short"]
+
+
+def nxp_sim(spec):
+    p = spec["product"]
+    nd = spec.get("ndef", 20)
+    kw = {"nak": "byte" if p == "NTAG203" else spec.get("nak", "byte")}
+    auth0 = spec.get("auth0")
+    if p == "ULC":
+        kw.update(key=PW if spec.get("key") else None,
+                  auth0=0x30 if auth0 is None else auth0,
+                  read_protect=bool(spec.get("prot", True)),
+                  cc3=spec.get("cc3", 0))
+    elif p in simnxp.PWD_AUTH:
+        kw.update(auth0=0xFF if auth0 is None else auth0,
+                  prot=bool(spec.get("prot", False)))
+        if spec.get("key"):
+            kw.update(pwd=PW[0:4], pack=PW[4:6])
+        if spec.get("cc3") is not None:
+            kw.update(cc3=spec["cc3"])
+    return simnxp.make(p, ndef=tc.message(nd, 3) if isinstance(nd, int)
+                       else nd, **kw)
 
 
 class Fx(object):
@@ -198,6 +330,14 @@ def make(fixture, desc=None):
         f.sim = simntag.make("NTAG213", ndef=tc.message(20, 3))
         f.kind = "t2t"
         f.mem = lambda: bytes(f.sim.mem)
+        f.expect = nfc.tag.tt2_nxp.NTAG213
+        return f
+    if (desc or {}).get("kind") == "nxp" or (desc is None and fixture in NXP):
+        spec = desc or NXP[fixture]
+        f.sim = nxp_sim(spec)
+        f.kind = "t2t"
+        f.mem = lambda: bytes(f.sim.mem)
+        f.expect = getattr(nfc.tag.tt2_nxp, simnxp.EXPECT[spec["product"]])
         return f
     if fixture in ("lite", "lites"):
         f.sim = simfelica.make(fixture, key=PW, ndef=True)
@@ -227,6 +367,8 @@ def do_op(tag, op, f):
         n = tag.ndef
         if n is None:
             return "no-ndef"
+        if not n.is_writeable:
+            return "read-only"
         ln = 300 if op == "write-big" else min(33, n.capacity)
         n.octets = tc.message(ln, 9)
         return "written"
@@ -249,10 +391,45 @@ def do_op(tag, op, f):
         return tag.protect(PW)
     if op == "protect-pw-str":
         return tag.protect(PW.decode("ascii"))
+    if op == "protect-pw-read":
+        return tag.protect(PW, True, 5)
+    if op == "protect-empty":
+        return tag.protect(b"")
+    if op in ("protect-short", "auth-short"):
+        # documented: "a password length between 1 and 15 generates a
+        # ValueError" (Ultralight C), "must be ... at least 6 byte" (NTAG21x)
+        try:
+            return tag.protect(b"abc") if op == "protect-short" else \
+                tag.authenticate(b"abc")
+        except ValueError:
+            return "value-error"
     if op == "auth":
         return tag.authenticate(PW)
+    if op == "auth-empty":
+        return tag.authenticate(b"")
+    if op == "auth-other":
+        return tag.authenticate(PW2)
+    if op == "auth-ndef":
+        a, n = tag.authenticate(PW), tag.ndef
+        return (a, None if n is None else bytes(n.octets))
+    if op == "auth-write":
+        a, n = tag.authenticate(PW), tag.ndef
+        if n is None:
+            return (a, "no-ndef")
+        if not n.is_writeable:
+            return (a, "read-only")
+        n.octets = tc.message(min(33, n.capacity), 9)
+        return (a, "written")
+    if op == "auth-dump":
+        return (tag.authenticate(PW), list(tag.dump()))
     if op == "dump":
         return list(tag.dump())
+    if op == "signature":
+        return bytes(tag.signature)
+    if op == "raw:session":
+        a = tag.sector_select(3)
+        r = bytes(tag.read(0xF8))
+        return (a, r, tag.sector_select(0))
     if op == "raw:read_id":
         return bytes(tag.read_id())
     if op == "raw:read_all":
@@ -294,6 +471,9 @@ def execute(fixture, op, fault, desc=None):
     clf, tag = tagdev.activate(f.sim, **f.dev_kw)
     if tag is None:
         raise Violation("activation-failed", fixture)
+    if not isinstance(tag, getattr(f, "expect", nfc.tag.Tag)):
+        raise Violation("activation-failed", "%s: activated as %s, not as %s"
+                        % (fixture, type(tag).__name__, f.expect.__name__))
     dev = clf.device
     base = dev.exchanges
     if fault is not None and fault[0] == "seq":
@@ -358,17 +538,90 @@ def is_sector_select_2(xlog, k):
     return k > 0 and xlog[k - 1][1] == b"\xC2\xFF"
 
 
+# Suspected genuine defects that are reported to the coordinator but not (yet)
+# registered in known_findings.json get a class of their own; the environment
+# variable VERIF_C16_LOCAL_EXCL (comma separated names, default: none) lets the
+# search go on past them.
+LOCAL_EXCL = set(x for x in os.environ.get("VERIF_C16_LOCAL_EXCL",
+                                           "").split(",") if x)
+
+
+def _known_locally(exc, tagname, ctx):
+    if isinstance(exc, AttributeError) and "_cfgpage" in str(exc) and \
+            tagname.startswith("MF0UL"):
+        # Ultralight EV1: protect() of NTAG21x needs self._cfgpage, which no
+        # MifareUltralightEV1 class sets
+        ctx.set_class("ev1/protect")
+        if "ev1-cfgpage" in LOCAL_EXCL:
+            ctx.label("local-exclusion:ev1-cfgpage")
+            return True
+    return False
+
+
+_fixed_ref = {}
+
+
+def reference(fixture, op, desc):
+    """the fault-free run; memoised for the fixed fixtures (it is a pure
+    function of fixture and op)"""
+    key = (fixture, op)
+    if desc is None and key in _fixed_ref:
+        return _fixed_ref[key]
+    ref = execute(fixture, op, None, desc)
+    if desc is None:
+        _fixed_ref[key] = ref
+    return ref
+
+
+def _refused(rsp):
+    """the tag's answer to a command it does not execute: NAK or silence"""
+    return rsp is None or (isinstance(rsp, bytes) and len(rsp) == 1
+                           and rsp[0] & 0xFA == 0x00)
+
+
+def _ulc_af(f, cmd):
+    """second step of the Ultralight C authentication"""
+    return f.kind == "t2t" and bool(cmd) and cmd[0] == 0xAF and len(cmd) == 17
+
+
+def _once(ref, k, response_lost):
+    """the command at position k of the fault-free run cannot be repeated
+    with the fault-free outcome, by the nature of the tag (see ASSUMPTIONS):
+    * the tag refused it by silence (a "mute" NAK: every attempt of the
+      fault-free run is a timeout already, the burst only takes the place of
+      some of these attempts)
+    * the tag executed it and the response was lost, for the AFh step of the
+      Ultralight C authentication (the tag is not waiting for it any more) and
+      for the command the tag refused with a NAK (it is in HALT state then)"""
+    cmd, rsp = ref["xlog"][k][1], ref["xlog"][k][2]
+    if rsp is None and ref["f"].kind == "t2t" and \
+            not is_sector_select_2(ref["xlog"], k):
+        return True
+    return response_lost and (_ulc_af(ref["f"], cmd) or (
+        "error" in ref and k == ref["n"] - 1 and _refused(rsp)))
+
+
+def _same_commands(f, xlog):
+    """answered commands for the 'not sent again' comparison.  The AFh step
+    of the Ultralight C authentication carries the tag's fresh challenge: it
+    is compared by its command code"""
+    return collections.Counter(
+        b"\xAF" if _ulc_af(f, cmd) else cmd for cmd in answered(xlog))
+
+
 def check(case, ctx):
     fixture, op = case["fixture"], case["op"]
     desc = case.get("desc")
     ctx.label(fixture + ":" + op)
     ctx.set_class("%s/%s" % (fixture, op))
     try:
-        ref = execute(fixture, op, None, desc)
+        ref = reference(fixture, op, desc)
     except NoRoom:
         ctx.label("layout-without-room")
         return None
     if "other" in ref:
+        if _known_locally(ref["other"], ref["tag"], ctx):
+            return None
         raise unexpected(ref["other"], "fault-free-op-raises")
     if case.get("fault") is None:
         ctx.note({"exchanges": ref["n"], "tag": ref["tag"]})
@@ -390,27 +643,48 @@ def check(case, ctx):
     budget = run["budget"]
     target_cmd = ref["xlog"][k][1]
     ss2 = ref["f"].kind == "t2t" and is_sector_select_2(ref["xlog"], k)
+    # not repeatable by the nature of the tag (see ASSUMPTIONS): the AFh step
+    # of the Ultralight C authentication once the tag has executed it, and a
+    # command the tag refused (it is in HALT state then)
+    once = _once(ref, k, phase == "rsp")
     statechange = bool(ref["xlog"][k][1]) and _is_write(ref["f"], target_cmd)
     if k == 0 or statechange:
         ctx.nontrivial()
     # (a)
     if "other" in run:
+        if _known_locally(run["other"], run["tag"], ctx):
+            return None
         raise unexpected(run["other"], "raw-or-unrelated-exception",
                          detail="fault %r on command %s" % (
                              case["fault"], (target_cmd or b"").hex()[:40]))
     is_t4 = ref["f"].kind == "t4t"
     absorb = (budget + 1) // 2 if is_t4 else budget - 1
-    if burst and burst <= absorb and not ss2:
+    if burst and burst <= absorb and not ss2 and once:
+        ctx.label("burst-below-budget:command-not-repeatable")
+    elif burst and burst <= absorb and not ss2:
         ctx.label("burst-below-budget")
         # (b)
-        if "error" in run and not _nonidempotent(fixture, op, phase):
+        if "error" in ref:
+            # the tag refuses a command of the fault-free operation: the
+            # absorbed burst leaves exactly that TagCommandError
+            ctx.label("fault-free-run-ends-with-TagCommandError")
+            if "error" not in run or \
+                    run["error"].errno != ref["error"].errno or \
+                    type(run["error"]) is not type(ref["error"]):
+                raise Violation("result-differs-from-fault-free",
+                                "burst %d at exchange %d (%s): %r, fault-free "
+                                "%r" % (burst, k,
+                                        (target_cmd or b"").hex()[:40],
+                                        run.get("error", run.get("result")),
+                                        ref["error"]))
+        elif "error" in run and not _nonidempotent(fixture, op, phase):
             raise Violation("transient-error-not-absorbed",
                             "burst %d (budget %d attempts) at exchange %d "
                             "(%s) raised %r" % (burst, budget, k,
                                                 (target_cmd or b"").hex()[:40],
                                                 run["error"]))
-        if "error" not in run:
-            if run["result"] != ref["result"]:
+        if ("error" in run) == ("error" in ref):
+            if "error" not in run and run["result"] != ref["result"]:
                 raise Violation("result-differs-from-fault-free",
                                 "%r vs %r" % (run["result"], ref["result"]))
             if run["mem"] != ref["mem"] and not _nonidempotent(fixture, op,
@@ -419,9 +693,8 @@ def check(case, ctx):
             if not is_t4 and not _nonidempotent(fixture, op, phase):
                 # (d) result and memory are equal: then no command may have
                 # been answered more often than in the fault-free run
-                import collections
-                ca = collections.Counter(answered(run["xlog"]))
-                cb = collections.Counter(answered(ref["xlog"]))
+                ca = _same_commands(ref["f"], run["xlog"])
+                cb = _same_commands(ref["f"], ref["xlog"])
                 extra = [c for c in ca if ca[c] > cb.get(c, 0)]
                 if extra:
                     raise Violation(
@@ -516,6 +789,8 @@ def check_mixed(case, ctx):
             ctx.label("layout-without-room")
             return
         if "other" in ref:
+            if _known_locally(ref["other"], ref["tag"], ctx):
+                return
             raise unexpected(ref["other"], "fault-free-op-raises")
         if desc is None:
             _mixed_ref[key] = ref
@@ -544,29 +819,43 @@ def check_mixed(case, ctx):
         (target_cmd or b"").hex()[:40])
     # (a)
     if "other" in run:
+        if _known_locally(run["other"], run["tag"], ctx):
+            return
         raise unexpected(run["other"], "raw-or-unrelated-exception",
                          detail=what)
     absorb = (budget + 1) // 2 if is_t4 else budget - 1
     nonidem = any(_nonidempotent(fixture, op, ph) for _, ph in seq)
-    if not tail and len(seq) <= absorb and not ss2:
+    # not repeatable once the tag has executed it (see check)
+    once = _once(ref, k, any(ph == "rsp" for _, ph in seq))
+    if not tail and len(seq) <= absorb and not ss2 and once:
+        ctx.label("mixed:burst-below-budget:command-not-repeatable")
+    elif not tail and len(seq) <= absorb and not ss2:
         ctx.label("mixed:burst-below-budget")
         ctx.nontrivial()
         # (b)
-        if "error" in run and not nonidem:
+        if "error" in ref:
+            ctx.label("mixed:fault-free-run-ends-with-TagCommandError")
+            if "error" not in run or \
+                    run["error"].errno != ref["error"].errno or \
+                    type(run["error"]) is not type(ref["error"]):
+                raise Violation("result-differs-from-fault-free",
+                                "%s: %r, fault-free %r" % (
+                                    what, run.get("error", run.get("result")),
+                                    ref["error"]))
+        elif "error" in run and not nonidem:
             raise Violation("transient-error-not-absorbed",
                             "%s (budget %d attempts) raised %r"
                             % (what, budget, run["error"]))
-        if "error" not in run:
-            if run["result"] != ref["result"]:
+        if ("error" in run) == ("error" in ref):
+            if "error" not in run and run["result"] != ref["result"]:
                 raise Violation("result-differs-from-fault-free",
                                 "%s: %r vs %r" % (what, run["result"],
                                                   ref["result"]))
             if run["mem"] != ref["mem"] and not nonidem:
                 raise Violation("memory-differs-from-fault-free", what)
             if not is_t4 and not nonidem:
-                import collections
-                ca = collections.Counter(answered(run["xlog"]))
-                cb = collections.Counter(answered(ref["xlog"]))
+                ca = _same_commands(ref["f"], run["xlog"])
+                cb = _same_commands(ref["f"], ref["xlog"])
                 extra = [c for c in ca if ca[c] > cb.get(c, 0)]
                 if extra:
                     raise Violation(
@@ -636,11 +925,11 @@ def enum_mixed(tier, seed):
     for fx in list(OPS):
         for op in OPS[fx]:
             try:
-                ref = execute(fx, op, None)
+                ref = reference(fx, op, None)
             except Violation:
                 continue
             n = ref["n"]
-            if not n:
+            if not n or "other" in ref:
                 continue
             count += 1
             if quick:
@@ -672,8 +961,46 @@ def enum_mixed(tier, seed):
                                "tail": bool(tail)}
 
 
+NXP_GEN_OPS = ["ndef", "ndef", "write", "write", "present", "format", "dump",
+               "protect", "protect-pw", "protect-pw-read", "protect-empty",
+               "auth", "auth-empty", "auth-other", "auth-ndef", "auth-write",
+               "auth-dump", "raw:read", "raw:write"]
+
+
+def nxp_desc():
+    """generated NXP personality: product x message length / blank / no
+    capability container x NAK as byte or silence x (Ultralight C and the
+    PWD_AUTH products) secret ex works or PW x AUTH0 x read protection x
+    access byte of the capability container -> (fixture name, desc)"""
+    def per_product(p):
+        cap = simnxp.CAPACITY[p]
+        fields = {
+            "kind": st.just("nxp"), "product": st.just(p),
+            "ndef": st.one_of(st.integers(0, min(40, cap - 3)),
+                              st.integers(0, min(40, cap - 3)),
+                              st.sampled_from(["blank", None])),
+            "nak": st.just("byte") if p == "NTAG203" else
+            st.sampled_from(["byte", "byte", "mute"])}
+        if p == "ULC" or p in simnxp.PWD_AUTH:
+            off, last = (0x30, 47) if p == "ULC" else (0xFF, cap // 4 + 8)
+            fields.update({
+                "key": st.booleans(),
+                "auth0": st.one_of(st.just(off), st.integers(3, last)),
+                "prot": st.booleans(),
+                "cc3": st.sampled_from([0x00, 0x00, 0x08, 0x88, 0x0F])})
+        return st.fixed_dictionaries(fields).map(
+            lambda d: ("gen-" + p.lower(), d))
+    return st.sampled_from(sorted(simnxp.EXPECT)).flatmap(per_product)
+
+
+def nxp_op(product):
+    ops = NXP_GEN_OPS + (["signature"] if product in simnxp.PWD_AUTH else [])
+    return st.sampled_from(ops)
+
+
 def gen_mixed(tier):
     descs = st.one_of(
+        nxp_desc(),
         tc.t2t_desc().map(lambda d: ("t2t", dict(d, size=min(d["size"], 40)))),
         tc.t1t_desc().map(lambda d: (
             "t1t" if d["size"] == 14 else "t1t-dyn",
@@ -694,7 +1021,9 @@ def gen_mixed(tier):
             seq[i][0] = KINDS[(KINDS.index(seq[i][0]) +
                                draw(st.integers(1, 2))) % 3]
         return {"fixture": fx, "desc": desc, "kmod": True,
-                "op": draw(st.sampled_from(["ndef", "write", "present"])),
+                "op": draw(nxp_op(desc["product"])
+                           if desc["kind"] == "nxp" else
+                           st.sampled_from(["ndef", "write", "present"])),
                 "k": draw(st.one_of(st.integers(0, 12),
                                     st.integers(0, 100000))),
                 "seq": seq, "tail": draw(st.booleans())}
@@ -704,14 +1033,21 @@ def gen_mixed(tier):
 # ------------------------------------------------------------ enumeration
 def enum_faults(tier, seed):
     fixtures = list(OPS)
+    count = seed
     for fx in fixtures:
         for op in OPS[fx]:
             yield {"fixture": fx, "op": op, "fault": None}
             try:
-                ref = execute(fx, op, None)
+                ref = reference(fx, op, None)
             except Violation:
                 continue
+            if "other" in ref:
+                continue
             n = ref["n"]
+            # quick, long operations of the NXP personalities (dump of 135 to
+            # 480 pages, lock bits of the NTAG I2C): the error kind rotates
+            # from position to position instead of multiplying
+            rotate = tier == "quick" and fx in NXP and n > 100
             if tier == "quick":
                 ks = sorted(set(list(range(0, min(n, 6))) +
                                 list(range(max(0, n - 4), n)) +
@@ -723,7 +1059,8 @@ def enum_faults(tier, seed):
                     list(range(40, n - 40, max(1, n // 60)))))
                 bursts = BURSTS
             for k in ks:
-                for kind in KINDS:
+                count += 1
+                for kind in ([KINDS[count % 3]] if rotate else KINDS):
                     for burst in bursts:
                         for phase in PHASES:
                             yield {"fixture": fx, "op": op,
@@ -732,6 +1069,7 @@ def enum_faults(tier, seed):
 
 def gen_case(tier):
     descs = st.one_of(
+        nxp_desc(),
         tc.t2t_desc().map(lambda d: ("t2t", dict(d, size=min(d["size"], 40)))),
         tc.t1t_desc().map(lambda d: (
             "t1t" if d["size"] == 14 else "t1t-dyn",
@@ -743,7 +1081,8 @@ def gen_case(tier):
     @st.composite
     def s(draw):
         fx, desc = draw(descs)
-        op = draw(st.sampled_from(["ndef", "write", "present"]))
+        op = draw(nxp_op(desc["product"]) if desc["kind"] == "nxp" else
+                  st.sampled_from(["ndef", "write", "present"]))
         return {"fixture": fx, "op": op, "desc": desc, "kmod": True,
                 "fault": [draw(st.one_of(st.integers(0, 12),
                                          st.integers(0, 100000))),
@@ -1236,6 +1575,7 @@ def gen_mem_history(tier):
 #     polls (for `span` events, 0 = for good): next to a NAK, at the start of
 #     a later operation, anywhere.
 RE_PW = {"factory": (b"", b"wrong!"), "custom": (b"passPK", b"pbssPK")}
+RE_PW_NXP = {"factory": (b"", PW2), "custom": (PW, PW2)}
 RE_OPS_ALL = ("ndef", "changed", "write", "present", "dump", "format",
               "protect", "read", "read-out", "write-page", "auth",
               "auth-wrong", "protect-pw", "protect-pw-read")
@@ -1310,6 +1650,13 @@ def re_sim(spec):
                            auth0=spec["auth0"], prot=spec["prot"],
                            ndef=tc.message(spec["ndef"], 3), nak=spec["nak"])
         return sim, sim.pages
+    if spec["fam"] == "nxp":
+        # a personality of vlib.simnxp; "custom": the tag holds PW (3DES key
+        # of the Ultralight C, PWD / PACK of the PWD_AUTH products)
+        sim = nxp_sim({"product": spec["product"], "ndef": spec["ndef"],
+                       "nak": spec["nak"], "key": spec["pw"] == "custom",
+                       "auth0": spec["auth0"], "prot": spec["prot"]})
+        return sim, sim.pages
     b = tc.build(spec["desc"], spec["old"], 5)
     if b is None:
         return None
@@ -1357,7 +1704,8 @@ def re_op(tag, op, spec, out_page):
         return bytes(tag.read(out_page))
     if op == "write-page":
         return tag.write(6, bytearray(b"WXYZ"))
-    right, wrong = RE_PW[spec.get("pw", "factory")]
+    right, wrong = (RE_PW_NXP if spec["fam"] == "nxp" else RE_PW)[
+        spec.get("pw", "factory")]
     if op == "auth":
         return tag.authenticate(right)
     if op == "auth-wrong":
@@ -1384,7 +1732,9 @@ def run_reactivation(spec, ops, plan):
     sim, out_page = made
     field = _Field(sim)
     clf, tag = tagdev.activate(field, budget=30000)
-    if not isinstance(tag, nfc.tag.tt2.Type2Tag):
+    if not isinstance(tag, nfc.tag.tt2.Type2Tag) or (
+            spec["fam"] == "nxp" and type(tag).__name__ !=
+            simnxp.EXPECT[spec["product"]]):
         raise Violation("activation-failed", "%r -> %r" % (spec, tag))
     field.arm(plan)
     h = Fx()
@@ -1414,7 +1764,8 @@ def run_reactivation(spec, ops, plan):
 
 def check_reactivation(case, ctx):
     spec, ops, plan = case["tag"], list(case["ops"]), case["plan"]
-    fam = spec["fam"] if spec["fam"] != "ntag" else spec["product"].lower()
+    fam = spec["fam"] if spec["fam"] not in ("ntag", "nxp") else \
+        spec["product"].lower()
     ctx.set_class("reactivate/" + fam)
     ref = run_reactivation(spec, ops, None)
     if ref is None:
@@ -1424,6 +1775,8 @@ def check_reactivation(case, ctx):
     for op, o in zip(ops, ref.outs):
         if o[0] == "other":
             ctx.set_class("reactivate/%s/%s" % (fam, op))
+            if _known_locally(o[1], ref.tag, ctx):
+                continue
             raise unexpected(o[1], "fault-free-op-raises",
                              detail="history %r" % (ops,))
     polls = [i for i, (k, _) in enumerate(ref.events) if k == "poll"]
@@ -1471,7 +1824,9 @@ def check_reactivation(case, ctx):
         return
     # the operation that met the fault, and those that started after it
     j = max(i for i in range(len(ops)) if run.hit_at[i] == 0)
-    if [o[0:2] for o in run.outs[:j]] != [o[0:2] for o in ref.outs[:j]]:
+    def plain(o):
+        return o[0:2] if o[0] != "other" else (o[0], repr(o[1]))
+    if [plain(o) for o in run.outs[:j]] != [plain(o) for o in ref.outs[:j]]:
         raise HarnessError("history %r is not deterministic: the steps "
                            "before the fault differ" % (ops,))
     ctx.label("reactivate:hit-during:" + ops[j])
@@ -1485,6 +1840,8 @@ def check_reactivation(case, ctx):
         # (a) the documented result or TagCommandError
         if o[0] == "other":
             ctx.set_class(cls)
+            if _known_locally(o[1], run.tag, ctx):
+                continue
             raise unexpected(
                 o[1], "raw-or-unrelated-exception",
                 detail="%s: operation %d (%s); the tag object %s" % (
@@ -1518,6 +1875,14 @@ RE_FIXTURES = [
     dict(RE_NTAG, product="NTAG210", auth0=6, prot=True, ndef=30),
     dict(RE_NTAG, product="NTAG215", auth0=0x10, prot=False, pw="custom",
          nak="mute"),
+]
+RE_ULC = {"fam": "nxp", "product": "ULC", "auth0": None, "prot": True,
+          "pw": "factory", "ndef": 20, "nak": "byte"}
+RE_FIXTURES += [
+    RE_ULC, dict(RE_ULC, auth0=6, pw="custom"),
+    dict(RE_ULC, product="NTAG203"),
+    dict(RE_ULC, product="MF0UL21", auth0=8, pw="custom"),
+    dict(RE_ULC, product="NT3H1101"),
 ]
 
 
@@ -1580,6 +1945,17 @@ def gen_reactivation(tier):
             "pw": st.sampled_from(["factory", "custom"]),
             "ndef": st.integers(0, 40),
             "nak": st.sampled_from(["byte", "byte", "mute"])}))
+    nxp = st.sampled_from(sorted(
+        p for p in simnxp.EXPECT if p not in simntag.PRODUCTS)).flatmap(
+        lambda p: st.fixed_dictionaries({
+            "fam": st.just("nxp"), "product": st.just(p),
+            "auth0": st.one_of(st.none(), st.integers(
+                3, min(simnxp.CAPACITY[p] // 4 + 8, 47))),
+            "prot": st.booleans(),
+            "pw": st.sampled_from(["factory", "custom"]),
+            "ndef": st.integers(0, 40),
+            "nak": st.just("byte") if p == "NTAG203" else
+            st.sampled_from(["byte", "byte", "mute"])}))
     weighted = ["dump"] * 3 + ["read-out"] * 3 + ["ndef", "changed",
         "changed", "write", "present", "present", "format", "protect",
         "read", "write-page", "auth", "auth-wrong", "auth-wrong",
@@ -1588,7 +1964,7 @@ def gen_reactivation(tier):
 
     @st.composite
     def s(draw):
-        spec = draw(st.one_of(generic, ntag, ntag))
+        spec = draw(st.one_of(generic, ntag, ntag, nxp, nxp))
         n = draw(st.integers(2, 6))
         ops = [draw(st.sampled_from(weighted)) for _ in range(n)]
         mode = draw(st.sampled_from(["poll", "poll", "leave", "leave",
@@ -1614,15 +1990,32 @@ LEGS = [
         shards_thorough=16,
         rule="fixed fixtures (generic T1T static/dynamic, Topaz, Topaz-512, "
              "generic T2T small and multi-sector, NTAG213, generic T3T, FeliCa "
-             "Lite and Lite-S, T4T 4A/4B/slow) x operations x fault position "
+             "Lite and Lite-S, T4T 4A/4B/slow; NXP personalities: Mifare "
+             "Ultralight, Ultralight C ex works / read+write protected / write "
+             "protected with a custom 3DES key, NTAG203 formatted / blank, "
+             "Ultralight EV1 MF0UL11 / MF0ULH11 / MF0UL21 / MF0ULH21, NTAG210 "
+             "open / protected / blank, NTAG212 / 213 / 215 / 216 formatted "
+             "and blank, NTAG I2C 1k / 2k) x operations (NXP: NDEF read, "
+             "write, is_present, format, dump, protect with lock bits / "
+             "password / empty / short password / read protection, "
+             "authenticate right / wrong / ex works / short password, "
+             "authenticate + NDEF read / write / dump, signature, raw read / "
+             "write, session registers) x fault position "
              "(thorough: every position; quick: both ends + samples) x kind x "
-             "burst {1,2,3,4,persistent} x {command lost, response lost}; "
+             "burst {1,2,3,4,persistent} x {command lost, response lost} "
+             "(quick, NXP operations of more than 100 commands: the kind "
+             "rotates over the positions); "
              "non-trivial = fault on the first command of the operation or on "
              "a state-changing command."),
-    Leg("generated", run=run, gen=gen_case, quick=800, thorough=30000,
+    Leg("generated", run=run, gen=gen_case, quick=1000, thorough=36000,
         shards_quick=4, shards_thorough=16, nt_floor=0.02,
         rule="generated layouts (C01 strategies, bounded size) x {ndef read, "
-             "write, presence check} x generated fault; non-trivial as above."),
+             "write, presence check} and generated NXP personalities (14 "
+             "products x message length / blank / no capability container x "
+             "NAK as byte or silence x secret ex works or custom x AUTH0 x "
+             "read protection x access byte of the capability container) x "
+             "an operation out of the NXP list of leg enum x generated fault; "
+             "non-trivial as above."),
     Leg("mixed", run=lambda case, ctx: check_mixed(case, ctx),
         enum=enum_mixed, exhaustive=True, shards_quick=12,
         shards_thorough=16,
@@ -1646,10 +2039,10 @@ LEGS = [
              "operation gave up on failed with different kinds and the "
              "reason code was judged."),
     Leg("mixed_generated", run=lambda case, ctx: check_mixed(case, ctx),
-        gen=gen_mixed, quick=600, thorough=20000, shards_quick=4,
+        gen=gen_mixed, quick=750, thorough=24000, shards_quick=4,
         shards_thorough=16, nt_floor=0.1,
-        rule="generated layouts (as leg generated) x {ndef read, write, "
-             "presence check} x generated position x generated sequence of "
+        rule="generated layouts and NXP personalities with their operations "
+             "(as leg generated) x generated position x generated sequence of "
              "2-4 errors of at least two kinds, command or response lost per "
              "element, with or without the last one persisting; oracles and "
              "non-trivial rule as in leg mixed."),
@@ -1697,7 +2090,10 @@ LEGS = [
         rule="ONE Type 2 tag object (generic Type2Tag small / with less "
              "physical memory than the CC declares, Mifare Ultralight, "
              "NTAG213 open, NTAG213 / NTAG210 read protected from a page on, "
-             "NTAG215 with custom password and mute NAK): a first operation "
+             "NTAG215 with custom password and mute NAK, Ultralight C ex "
+             "works / read protected from page 6 with a custom key, NTAG203, "
+             "Ultralight EV1 MF0UL21 read protected from page 8, NTAG I2C "
+             "1k): a first operation "
              "out of {dump, read beyond the memory, tag.ndef, "
              "protect(password), authenticate(wrong password)} (thorough: "
              "also NDEF re-read, protect(password, read_protect), NDEF "
@@ -1715,12 +2111,15 @@ LEGS = [
              "bool and False once the tag is gone for good.  non-trivial = "
              "an operation started after the fault took effect."),
     Leg("reactivate", run=lambda case, ctx: check_reactivation(case, ctx),
-        gen=gen_reactivation, quick=1500, thorough=40000, shards_quick=4,
+        gen=gen_reactivation, quick=2000, thorough=50000, shards_quick=4,
         shards_thorough=16, nt_floor=0.15,
         rule="generated Type 2 tags (C01 layouts as generic Type2Tag or "
              "Mifare Ultralight, optionally with 8..64 byte less physical "
              "memory than declared; NTAG210/212/213/215/216 x AUTH0 x PROT x "
-             "factory/custom password x NAK as byte or silence) x 2-6 "
+             "factory/custom password x NAK as byte or silence; Mifare "
+             "Ultralight (vlib.simnxp), Ultralight C, NTAG203, Ultralight EV1 "
+             "x4, NTAG I2C 1k / 2k x AUTH0 x read protection x ex works / "
+             "custom secret x NAK as byte or silence) x 2-6 "
              "operations on ONE tag object out of {tag.ndef, NDEF re-read, "
              "NDEF write, is_present, dump, format, protect, "
              "protect(password[, read_protect]), authenticate right/wrong "
